@@ -120,7 +120,20 @@ def apply_op(op, root, node, model, labels):
             return ("skip",)
         path, cspec = comps[op["li"] % len(comps)]
         _, cur = mat.model_get(spec, model, path)
-        new = mat.map_scalars(cspec, cur, lambda ls, v: fit_value(ls, op, v), strings=op["int"] % 3 == 0)
+        ctr = [0]
+
+        def fresh(ls, v):
+            # a different value for every leaf of the element (a permutation inside the element must be visible)
+            ctr[0] += 1
+            if ls["k"] == "string":
+                return fit_value(ls, op, v)
+            w = dict(op, int=op["int"] + 7 * ctr[0])
+            if not ls["t"].startswith("Float"):
+                return fit_value(ls, w, v)
+            base = op["float"] if op["float"] == op["float"] and abs(op["float"]) < 1e6 else 0.0
+            return float(int(base)) + ctr[0] * 0.5
+
+        new = mat.map_scalars(cspec, cur, fresh, strings=op["int"] % 3 == 0)
         cnode, _ = mat.node_at(node, model, path)
         arg = plain_arg(cnode, new)
         if cspec["k"] == "array" and cspec["item"]["k"] == "scalar" and op["int"] % 2 == 0 and isinstance(arg, list):
